@@ -158,7 +158,10 @@ func runC19(c *Ctx) {
 				held := x.heldAt(in)
 				switch spec.policy {
 				case "lock":
-					_, ok := held[spec.guard]
+					hk, ok := held[spec.guard]
+					if ok && kind == "write" && hk != "Lock" {
+						ok = false // a read lock does not protect a write
+					}
 					if !ok && f.Parent() == nil && f.Object() != nil && !f.Object().Exported() {
 						if hold, _ := c.callersHold(f, spec.guard); hold {
 							ok = true
